@@ -44,6 +44,10 @@ pub struct Subject {
     /// Skip the "retires when inputs end" clause (documented `nevereof`-style
     /// blocks still have to wait on an ended input, so this is rarely needed).
     pub no_retire_check: bool,
+    /// Actions applied before every enumerated sequence, in addition to the
+    /// plain enumeration: puts the block in an internal state that the bounded
+    /// horizon cannot reach from the initial one (e.g. past a long header).
+    pub warmup: Vec<Act>,
 }
 
 impl Subject {
@@ -405,15 +409,30 @@ fn source_oracle(sub: &Subject, e: &Exec) -> Option<(String, String)> {
                 format!("emitted {n} of {} samples and went quiet without ever reporting EOF", want.len()),
             ));
         }
+    }
+    source_tag_oracle(sub, e)
+}
+
+/// Marker tags of a source: the tags on the samples emitted so far are exactly
+/// the specified ones for those positions (checked at the end of every
+/// execution, not only at EOF).
+fn source_tag_oracle(sub: &Subject, e: &Exec) -> Option<(String, String)> {
+    if e.steps.iter().any(|s| matches!(s.verdict, Verdict::Panic(_) | Verdict::Err(_))) {
+        return None;
+    }
+    let spec = sub.spec.as_ref()?;
+    for (j, o) in e.outputs.iter().enumerate() {
+        if let Some(b) = &o.bad_tag_pos {
+            return Some(("tag".into(), format!("output {j}: {b}")));
+        }
         if let Some(Some(wt)) = spec.tags.get(j) {
-            if eof_at.is_some() {
-                let mut got = o.tags.clone();
-                let mut wt = wt.clone();
-                got.sort();
-                wt.sort();
-                if got != wt {
-                    return Some(("marker-tags".into(), format!("output {j}: tags {got:?}, want {wt:?}")));
-                }
+            let n = o.samples.len();
+            let mut got = o.tags.clone();
+            let mut wt: Vec<ATag> = wt.iter().filter(|t| t.0 < n).cloned().collect();
+            got.sort();
+            wt.sort();
+            if got != wt {
+                return Some(("marker-tags".into(), format!("output {j}: after {n} samples, tags {got:?}, want {wt:?}")));
             }
         }
     }
@@ -540,7 +559,11 @@ pub fn explore(rep: &mut Report, sub: &Subject, cfg: &EnvCfg) {
             }
         }
     }
-    if prop == "C12" {
+    if prop == "C12" && sub.no_retire_check {
+        if let Some((clause, msg)) = source_tag_oracle(sub, &reference) {
+            fail(rep, "C12", &clause, msg, &ref_start, &one_shot);
+        }
+    } else if prop == "C12" {
         if let Some(spec) = &sub.spec {
             if let Some((clause, msg)) = tag_oracle(&reference, spec) {
                 fail(rep, "C12", &clause, msg, &ref_start, &one_shot);
@@ -572,6 +595,17 @@ pub fn explore(rep: &mut Report, sub: &Subject, cfg: &EnvCfg) {
             sequences(&mm, h + 1)
         } else {
             sequences(&m, h)
+        };
+        let seqs: Vec<Vec<Act>> = if sub.warmup.is_empty() {
+            seqs
+        } else {
+            let mut all = seqs.clone();
+            for s in &seqs {
+                let mut w = sub.warmup.clone();
+                w.extend(s.iter().copied());
+                all.push(w);
+            }
+            all
         };
         for acts in &seqs {
             let inst = (sub.build)(start);
@@ -607,6 +641,7 @@ pub fn explore(rep: &mut Report, sub: &Subject, cfg: &EnvCfg) {
                 }
                 "C08" => chunking_oracle(&e, &reference).map(|(c, m)| ("C08", c, m)),
                 "C09" => verdict_oracle(sub, &e, &ii, &oo).map(|(c, m)| ("C09", c, m)),
+                "C12" if sub.no_retire_check => source_tag_oracle(sub, &e).map(|(c, m)| ("C12", c, m)),
                 "C12" => sub.spec.as_ref().and_then(|s| tag_oracle(&e, s)).map(|(c, m)| ("C12", c, m)),
                 "C10" => {
                     // Chunked delivery has to give the specified result too.
@@ -686,6 +721,12 @@ pub fn replay_one(rep: &mut Report, sub: &Subject, prop: &'static str, start: &S
         out.clear();
         if let Some((c, m)) = source_oracle(sub, &e) {
             out.push((prop.to_string(), c, m));
+        }
+    }
+    if prop == "C12" && sub.no_retire_check {
+        out.clear();
+        if let Some((c, m)) = source_tag_oracle(sub, &e) {
+            out.push(("C12".into(), c, m));
         }
     }
     if prop == "C11" {
